@@ -289,7 +289,8 @@ func (p *parser) parsePrimaryExpression() Node {
 	case Number:
 		p.next()
 		value := strings.Replace(token.Value, "_", "", -1)
-		if strings.ContainsAny(value, ".eE") {
+		hex := strings.HasPrefix(value, "0x") || strings.HasPrefix(value, "0X")
+		if !hex && strings.ContainsAny(value, ".eE") {
 			number, err := strconv.ParseFloat(value, 64)
 			if err != nil {
 				p.error("invalid float literal: %v", err)
@@ -297,7 +298,7 @@ func (p *parser) parsePrimaryExpression() Node {
 			node := &FloatNode{Value: number}
 			node.SetLocation(token.Location)
 			return node
-		} else if strings.Contains(value, "x") {
+		} else if hex {
 			number, err := strconv.ParseInt(value, 0, 64)
 			if err != nil {
 				p.error("invalid hex literal: %v", err)
